@@ -504,10 +504,13 @@ func planC01(prop string, seed uint64, tier string, idx int) *Plan {
 		travIdx = append(travIdx, len(g.p.Objs)-1)
 	}
 	// an index that describes the image with the wrong size (nothing verifies the sizes a client writes into an index)
+	// (the image is never tagged: only an untagged entry is handed over to the child list of the index, with the
+	// descriptor the index gives for it)
+	plat := g.newImage(-1, -1)
 	materialise(g.p.Objs)
 	var wrongSize []int
-	for _, sz := range []int{len(g.p.Objs[img].data) - 1, len(g.p.Objs[img].data) / 2, 1, len(g.p.Objs[img].data) + 7} {
-		g.p.Objs = append(g.p.Objs, &Obj{Kind: "raw", Raw: `{"schemaVersion":2,"mediaType":"` + mtOCIIndex + `","manifests":[{"mediaType":"` + g.p.Objs[img].mediaType() + `","digest":"` + g.p.Objs[img].digest("sha256") + `","size":` + fmt.Sprint(sz) + `}]}`, Subject: -1})
+	for _, sz := range []int{len(g.p.Objs[plat].data) - 1, len(g.p.Objs[plat].data) / 2, 1, len(g.p.Objs[plat].data) + 7} {
+		g.p.Objs = append(g.p.Objs, &Obj{Kind: "raw", Raw: `{"schemaVersion":2,"mediaType":"` + mtOCIIndex + `","manifests":[{"mediaType":"` + g.p.Objs[plat].mediaType() + `","digest":"` + g.p.Objs[plat].digest("sha256") + `","size":` + fmt.Sprint(sz) + `}]}`, Subject: -1})
 		wrongSize = append(wrongSize, len(g.p.Objs)-1)
 	}
 	n := g.scale(g.r.between(4, 14))
@@ -515,9 +518,9 @@ func planC01(prop string, seed uint64, tier string, idx int) *Plan {
 		repo := g.r.intn(g.nrepos())
 		switch g.r.intn(15) {
 		case 14:
-			g.pushManifest(repo, img, "", false)
+			g.pushManifest(repo, plat, "", false)
 			g.add(Op{K: "man", Repo: repo, Obj: wrongSize[g.r.intn(len(wrongSize))], Tag: "sz", CT: "own"})
-			g.add(Op{K: "get", Mode: "man", Repo: repo, Obj: img, Accept: "all", Head: g.r.chance(20)})
+			g.add(Op{K: "get", Mode: "man", Repo: repo, Obj: plat, Accept: "all", Head: g.r.chance(20)})
 			g.add(Op{K: "get", Mode: "tag", Repo: repo, Tag: "sz", Accept: g.r.str("other", "all")})
 		case 12:
 			tag := g.r.str("multi", "latest")
